@@ -276,7 +276,7 @@ prop("C14", "exploration",
      required_hist=["wrong-token:invalid-mask", "right-token:wrote-state", "differential:equal-throughout", "closed-wallet:refused", "reopened:works-with-new-token", "tokens-of-two-wallets-differ"])
 
 prop("C16", "exploration",
-     "chain histories produced by the history engine (2 wallets x 2 accounts, sends, invoices, late locks, self-sends, cancels before broadcast, coinbases to "
+     "chain histories produced by the history engine (2 wallets x 2 or 3 accounts, sends, invoices, late locks, self-sends, cancels before broadcast, coinbases to "
      "either wallet, 70-150 steps) settled and refreshed; then per seed: (a) a fresh wallet created from the phrase and scanned (start None or 1) with node "
      "page sizes {as asked,1,2,3,7,1000}: its Unspent records must be exactly the seed's commitments in the UTXO set (every commitment the harness ever saw "
      "for that seed) with the chain's value, height, coinbase flag, maturity and account, per-account spendable/immature must equal the values computed from "
@@ -292,7 +292,7 @@ prop("C16", "exploration",
      ["balances are read after a refresh of the account (the figures are relative to the account's confirmed height)",
       "job c16m: same new-wallet/non-active-account situation, then a scan with a start height near the tip: nothing recorded that is in the UTXO set may be lost",
       "mid-chain start heights are not judged for completeness"],
-     required_hist=["restore:matches-chain-truth", "restore:second-scan-no-change", "repair:matches-chain-truth", "repair:second-scan-no-change", "restore:spendable-equals-original", "repair-after-cancel-of-broadcast:matches-chain-truth", "repair-after-reorg:matches-chain-truth", "partial-scan:keeps-records-below-its-range"])
+     required_hist=["restore:matches-chain-truth", "restore:second-scan-no-change", "repair:matches-chain-truth", "repair:second-scan-no-change", "restore:spendable-equals-original", "repair-after-cancel-of-broadcast:matches-chain-truth", "repair-after-reorg:matches-chain-truth", "partial-scan:keeps-records-below-its-range", "restore:account-created-before-the-scan"])
 
 prop("C18", "exploration",
      "a payment from wallet 0 to wallet 1 is mined (0-2 earlier and later blocks mined by the recipient, so that its coinbases can be orphaned) and confirmed; then "
